@@ -25,6 +25,9 @@ pub fn build(spec: &FontSpec) -> Vec<u8> {
     tables.push((*b"hmtx", xmtx(&spec.hadv)));
     tables.push((*b"cmap", cmap(spec)));
     tables.push((*b"post", post(spec)));
+    if let Some(o) = &spec.os2 {
+        tables.push((*b"OS/2", os2(o)));
+    }
     if let Some(vm) = &spec.vmetrics {
         assert!(vm.vadv.len() == n, "fontgen: vadv.len() {} != num_glyphs {}", vm.vadv.len(), n);
         tables.push((*b"vhea", xhea(0x0001_1000, vm.ascender, vm.descender, vm.line_gap, &vm.vadv)));
@@ -171,6 +174,28 @@ fn xmtx(adv: &[u16]) -> Vec<u8> {
     let mut o = Obj::new();
     for a in adv {
         o.u16(*a).i16(0);
+    }
+    o.data
+}
+
+fn os2(t: &Os2) -> Vec<u8> {
+    let mut o = Obj::new();
+    o.u16(t.version).i16(500).u16(400).u16(5).u16(0); // version xAvgCharWidth usWeightClass usWidthClass fsType
+    for _ in 0..10 {
+        o.i16(0); // ySubscript.. yStrikeoutPosition
+    }
+    o.i16(0); // sFamilyClass
+    for _ in 0..5 {
+        o.u16(0); // panose (10 bytes)
+    }
+    o.u32(0).u32(0).u32(0).u32(0); // ulUnicodeRange1..4
+    o.u32(0x2020_2020); // achVendID
+    o.u16(t.fs_selection).u16(0x20).u16(0xFFFF); // fsSelection usFirstCharIndex usLastCharIndex
+    o.i16(t.typo_ascender).i16(t.typo_descender).i16(t.typo_line_gap).u16(t.win_ascent).u16(t.win_descent);
+    o.u32(0).u32(0); // ulCodePageRange1..2
+    o.i16(0).i16(0).u16(0).u16(0x20).u16(0); // sxHeight sCapHeight usDefaultChar usBreakChar usMaxContext
+    if t.version >= 5 {
+        o.u16(0).u16(0xFFFF); // usLowerOpticalPointSize usUpperOpticalPointSize
     }
     o.data
 }
